@@ -11,6 +11,7 @@ import fam_minmax
 import fam_merge
 import fam_query
 import fam_fsstore
+import fam_layout
 
 
 class WritePathFamily:
@@ -55,7 +56,14 @@ class FSStoreFamily:
     evidence = staticmethod(fam_fsstore.evidence)
 
 
-FAMILIES = [WritePathFamily, SearchFamily, MinMaxFamily, MergeFamily, QueryFamily, FSStoreFamily]
+class LayoutFamily:
+    NAME = "layout"
+    PROPS = fam_layout.PROPS
+    compute = staticmethod(fam_layout.compute)
+    evidence = staticmethod(fam_layout.evidence)
+
+
+FAMILIES = [WritePathFamily, SearchFamily, MinMaxFamily, MergeFamily, QueryFamily, FSStoreFamily, LayoutFamily]
 
 # families whose monitors also judge predicates of a property owned by another family: their
 # violations of that property are reported by the property's check as well
